@@ -18,7 +18,9 @@ RULE = ('cases = corpus + random scenarios: 1-2 cookies set with Response.set_co
         'empty), the emitted Set-Cookie values become the Cookie header of a new Request, optionally edited by an '
         'attacker (single-byte substitution with 8 byte values per position, deletion, truncation, insertion, '
         'signature swap between two cookies, replay of another cookie under this name, reading with another '
-        'secret), then Request.get_cookie and Request.cookies; pickle.loads observed through a recording proxy. '
+        'secret), then Request.get_cookie and Request.cookies; in 30% of the scenarios 1-3 further get_cookie reads on '
+        'the SAME request (names of the cookies sent, secrets from right / another / empty / None), each compared with '
+        'a fresh request; pickle.loads observed through a recording proxy. '
         'Plus primitive streams: http.cookies._quote/_unquote on arbitrary text, SimpleCookie parsing of arbitrary '
         'and malformed Cookie headers (through Request.cookies), base64 encode / lenient decode, HMAC-MD5. '
         'thorough adds every single-byte substitution (8 values), deletion and truncation at every position of '
@@ -143,13 +145,16 @@ def jeq(a, b):
 NO_T = dict(kind=0, a=0, b=0, repl=[])
 
 
-def scn(cookies, tamper_=None, rname=None, rsecret='__same__'):
+def scn(cookies, tamper_=None, rname=None, rsecret='__same__', reads=None):
     cookies = [dict(name=n, value=v, secret=s) for (n, v, s) in cookies]
     if rname is None:
         rname = cookies[0]['name']
     if rsecret == '__same__':
         rsecret = cookies[0]['secret']
-    return dict(mode='scn', cookies=cookies, tamper=dict(tamper_ or NO_T), rname=rname, rsecret=rsecret)
+    c = dict(mode='scn', cookies=cookies, tamper=dict(tamper_ or NO_T), rname=rname, rsecret=rsecret)
+    if reads:
+        c['reads'] = [list(r) for r in reads]
+    return c
 
 
 def corpus():
@@ -196,6 +201,10 @@ def corpus():
         scn([('a', 1, S)], dict(kind=4, a=0, b=0, repl=cps('gAWVCQAAAAAAAACMAWGUSwGG'))),        # re-signed, truncated pickle
         scn([('a', 1, S)], dict(kind=4, a=0, b=0, repl=[])),
         scn([('a', 'one', None), ('b', 'two', None)], rname='b'),
+        # several reads on one request: right secret then a foreign one; a new secret then the old one (key rotation)
+        scn([('a', obj, S)], reads=[('a', 'other')]),
+        scn([('a', obj, S)], rsecret='new-secret', reads=[('a', S)]),
+        scn([('a', obj, S), ('b', 'plain', None)], reads=[('a', None), ('b', S), ('a', S), ('b', None)]),
         dict(mode='quote', s=''), dict(mode='quote', s='a"b\\c;\n\xff\u0100'), dict(mode='quote', s='"a\\"'),
         dict(mode='quote', s='"\\012\\0\\\n\\"'), dict(mode='quote', s='"'), dict(mode='quote', s='"\\'),
         dict(mode='quote', s='"\\400\\377\\38"'),
@@ -378,11 +387,24 @@ def gen_parse(rng):
     return rng.choice(['', ' ', '\t']) + s + rng.choice(['', '', ';', ' ', '\n'])
 
 
+def add_reads(rng, c):
+    """2-4 reads in all on ONE request: names from the cookies sent, secrets from {right, another, empty, None}"""
+    names = [x['name'] for x in c['cookies']] + [c['rname']]
+    secs = [x['secret'] for x in c['cookies'] if x['secret']] or ['s3cr3t']
+    reads = []
+    for _ in range(rng.randrange(1, 4)):
+        reads.append([rng.choice(names) if rng.random() < 0.9 else 'zz',
+                      rng.choice(secs + secs + ['other', 'k2', None, ''])])
+    c['reads'] = reads
+    return c
+
+
 def gen(rng, n):
     for _ in range(n):
         r = rng.random()
         if r < 0.55:
-            yield gen_scn(rng)
+            c = gen_scn(rng)
+            yield add_reads(rng, c) if rng.random() < 0.3 else c
         elif r < 0.8:
             yield dict(mode='parse', s=gen_parse(rng))
         elif r < 0.92:
@@ -444,6 +466,44 @@ def run_impl(case):
     return run_scn(case)
 
 
+def read_once(rq, proxy, case, name, secret):
+    """one Request.get_cookie call: (canonical result, argument of pickle.loads or None)"""
+    from http.cookies import CookieError
+    proxy.calls.clear()
+    try:
+        got = rq.get_cookie(name, default=SENTINEL, secret=secret)
+    except CookieError:
+        g = ['cookie_error']
+    except Exception:
+        g = ['raise']
+    else:
+        if got is SENTINEL:
+            g = ['default']
+        elif not proxy.calls and not secret:
+            g = ['str', cps(got)] if isinstance(got, str) else ['other', repr(got)[:60]]
+        elif not proxy.calls and isinstance(got, str) and not any(
+                as_obj(c) and jeq(got, c['value']) for c in case['cookies']):
+            g = ['str', cps(got)]
+        else:
+            # an unpickled object; when nothing was unpickled for THIS read (a memo) it is identified by value
+            g = ['other', repr(got)[:60]]
+            for i, c in enumerate(case['cookies']):
+                if as_obj(c) and (not proxy.calls or proxy.calls[-1] == pk_of(c)) and jeq(got, c['value']):
+                    g = ['val', i]
+                    break
+    if len(proxy.calls) > 1:
+        return g, ['many'] + [list(x) for x in proxy.calls]
+    return g, (list(proxy.calls[0]) if proxy.calls else None)
+
+
+def project(obs, case):
+    """the fresh-request references are for the oracle only"""
+    if isinstance(obs, dict) and 'fresh' in obs:
+        obs = dict(obs)
+        del obs['fresh']
+    return obs
+
+
 def run_scn(case):
     from http.cookies import CookieError
     import ombott.common_helpers as ch
@@ -476,28 +536,16 @@ def run_scn(case):
             cookies = [[cps(k), cps(v)] for k, v in rq.cookies.items()]
         except CookieError:
             cookies = 'CookieError'
-        proxy.calls.clear()
-        try:
-            got = rq.get_cookie(case['rname'], default=SENTINEL, secret=case['rsecret'])
-        except CookieError:
-            g = ['cookie_error']
-        except Exception as e:
-            g = ['raise']
-        else:
-            if got is SENTINEL:
-                g = ['default']
-            elif not proxy.calls:
-                g = ['str', cps(got)] if isinstance(got, str) else ['other', repr(got)[:60]]
-            else:
-                g = ['other', repr(got)[:60]]
-                for i, c in enumerate(case['cookies']):
-                    if as_obj(c) and proxy.calls[-1] == pk_of(c) and jeq(got, c['value']):
-                        g = ['val', i]
-                        break
-        if len(proxy.calls) > 1:
-            return dict(st='ok', wires=wires, hdr=hdr, cookies=cookies, got=g, loads=['many'] + proxy.calls)
-        return dict(st='ok', wires=wires, hdr=hdr, cookies=cookies, got=g,
-                    loads=proxy.calls[0] if proxy.calls else None)
+        g, loads = read_once(rq, proxy, case, case['rname'], case['rsecret'])
+        obs = dict(st='ok', wires=wires, hdr=hdr, cookies=cookies, got=g, loads=loads)
+        more, fresh = [], []
+        for name, sec in case.get('reads', []):
+            more.append(list(read_once(rq, proxy, case, name, sec)))            # the SAME request object
+            rq2 = Request(environ(HTTP_COOKIE=uncps(hdr)))                       # reference: a fresh request
+            fresh.append(list(read_once(rq2, proxy, case, name, sec)))
+        obs['more'] = more
+        obs['fresh'] = fresh
+        return obs
     finally:
         ch.pickle = saved
 
@@ -523,7 +571,8 @@ def encode(case):
         return enc_str(cps(c['name'])) + [0] + enc_str(cps(c['value'])) + opt_str(c['secret'])
     t = case['tamper']
     return ([0] + enc_list(case['cookies'], spec) + [t['kind'], t['a'], t['b']] + enc_str(t['repl'])
-            + enc_str(cps(case['rname'])) + opt_str(case['rsecret']))
+            + enc_str(cps(case['rname'])) + opt_str(case['rsecret'])
+            + enc_list(case.get('reads', []), lambda r: enc_str(cps(r[0])) + opt_str(r[1])))
 
 
 def dec_pres(r):
@@ -531,6 +580,25 @@ def dec_pres(r):
     if tag == 0:
         return r.list(lambda q: [q.str(), q.str()])
     return 'CookieError' if tag == 1 else 'model_tag_%d' % tag
+
+
+def dec_gres(r, case):
+    g = r.int()
+    if g == 0:
+        return ['default']
+    if g == 1:
+        return ['str', r.str()]
+    if g == 2:
+        p = r.str()
+        for i, c in enumerate(case['cookies']):
+            if as_obj(c) and pk_of(c) == p:
+                return ['val', i]
+        return ['other', 'unknown pickle']
+    if g == 4:
+        return ['cookie_error']
+    if g == 5:
+        return ['raise']
+    return ['model_tag_%d' % g]
 
 
 def decode(out, case):
@@ -555,26 +623,10 @@ def decode(out, case):
     wires = r.list(lambda q: q.str())
     hdr = r.str()
     cookies = dec_pres(r)
-    g = r.int()
-    if g == 0:
-        got = ['default']
-    elif g == 1:
-        got = ['str', r.str()]
-    elif g == 2:
-        p = r.str()
-        got = ['other', 'unknown pickle']
-        for i, c in enumerate(case['cookies']):
-            if as_obj(c) and pk_of(c) == p:
-                got = ['val', i]
-                break
-    elif g == 4:
-        got = ['cookie_error']
-    elif g == 5:
-        got = ['raise']
-    else:
-        got = ['model_tag_%d' % g]
+    got = dec_gres(r, case)
     loads = r.str() if r.int() else None
-    return dict(st='ok', wires=wires, hdr=hdr, cookies=cookies, got=got, loads=loads)
+    more = r.list(lambda q: [dec_gres(q, case), q.str() if q.int() else None])
+    return dict(st='ok', wires=wires, hdr=hdr, cookies=cookies, got=got, loads=loads, more=more)
 
 
 # ----------------------------------------------------------------------------
@@ -600,9 +652,27 @@ def oracle(case, obs):
         return 'harness: %s' % obs
     if obs['st'] != 'ok':
         return None                                # the cookie was refused when it was set: nothing to read back
-    cookies, rname, rsec = case['cookies'], case['rname'], case['rsecret']
-    got, loads = obs['got'], obs['loads']
-    hdr = obs['hdr']
+    f = check_read(case, obs['hdr'], case['rname'], case['rsecret'], obs['got'], obs['loads'])
+    if f:
+        return f
+    # further reads on the SAME request: each must be what a fresh request returns for that (name, secret),
+    # i.e. independent of the reads made before, and must satisfy the property on its own
+    reads = case.get('reads', [])
+    for i, (name, sec) in enumerate(reads):
+        g, l = obs['more'][i]
+        fg, fl = obs['fresh'][i]
+        if g != fg:
+            return ('read %d on the same request, get_cookie(%r, secret=%r), returned %s but a fresh request with the '
+                    'same Cookie header returns %s: a read depends on the reads before it'
+                    % (i + 2, name, sec, describe(g), describe(fg)))
+        f = check_read(case, obs['hdr'], name, sec, g, l)
+        if f:
+            return 'read %d: %s' % (i + 2, f)
+    return None
+
+
+def check_read(case, hdr, rname, rsec, got, loads):
+    cookies = case['cookies']
     signed = [c for c in cookies if c['secret']]
     if case['tamper']['kind'] == 4:
         return None                                # the "attacker" holds the secret: outside the property
@@ -628,7 +698,6 @@ def oracle(case, obs):
         if mine:
             c = mine[-1]
             if bool(c['secret']) and c['secret'] == rsec:
-                i = max(i for i, x in enumerate(cookies) if x is c)
                 if got[0] != 'val' or not jeq(cookies[got[1]]['value'], c['value']):
                     return 'signed cookie does not round-trip: got %s' % got[:2]
             elif not c['secret'] and not rsec:
@@ -645,23 +714,37 @@ def describe(got):
 
 def _plain_rt(case, what):
     return (case.get('mode') == 'scn' and case['tamper']['kind'] == 0
-            and (what == 'disagreement' or str(what).startswith('plain cookie does not round-trip')))
+            and (what == 'disagreement' or 'plain cookie does not round-trip' in str(what))
+            and 'depends on the reads before it' not in str(what))
 
 
-def _read_cookie(case):
-    mine = [c for c in case['cookies'] if c['name'] == case['rname']]
-    return mine[-1] if mine else None
+def _read_cookies(case, what):
+    """the cookie(s) the failing read was about: the read named in the oracle message ('read N: ...'), or, for a
+    model/implementation disagreement, every read of the scenario"""
+    import re
+    names = [case['rname']] + [r[0] for r in case.get('reads', [])]
+    m = re.match(r'read (\d+):', str(what))
+    if m:
+        names = [names[int(m.group(1)) - 1]]
+    elif what != 'disagreement':
+        names = names[:1]
+    out = []
+    for n in names:
+        mine = [c for c in case['cookies'] if c['name'] == n]
+        if mine:
+            out.append(mine[-1])
+    return out
 
 
 def pred_above_255(case, what, m):
-    c = _plain_rt(case, what) and _read_cookie(case)
-    return bool(c) and isinstance(c['value'], str) and any(ord(ch) > 255 for ch in c['value']) \
-        and not c['name'].startswith('$')
+    if not _plain_rt(case, what):
+        return False
+    return any(isinstance(c['value'], str) and any(ord(ch) > 255 for ch in c['value'])
+               and not c['name'].startswith('$') for c in _read_cookies(case, what))
 
 
 def pred_empty(case, what, m):
-    c = _plain_rt(case, what) and _read_cookie(case)
-    return bool(c) and c['value'] == ''
+    return bool(_plain_rt(case, what)) and any(c['value'] == '' for c in _read_cookies(case, what))
 
 
 def pred_dollar(case, what, m):
@@ -671,7 +754,8 @@ def pred_dollar(case, what, m):
         return False
     return any(c['name'].startswith('$') for c in case['cookies']) and (
         what == 'disagreement' or 'does not round-trip' in str(what)
-        or str(what).startswith('reading an untouched cookie failed: [\'cookie_error\']'))
+        or 'reading an untouched cookie failed: [\'cookie_error\']' in str(what)) \
+        and 'depends on the reads before it' not in str(what)
 
 
 PREDICATES = {
@@ -713,6 +797,9 @@ def shrink(case):
             for i in range(len(s)):
                 yield dict(case, s=s[:i] + s[i + 1:])
         return
+    rd = case.get('reads', [])
+    for i in range(len(rd)):
+        yield dict(case, reads=rd[:i] + rd[i + 1:])
     cs = case['cookies']
     if len(cs) > 1 and case['tamper']['kind'] < 2:
         for i in range(len(cs)):
